@@ -34,14 +34,6 @@ Fixpoint stake (n : nat) (s : string) : string :=
 
 Definition sconcat (l : list string) : string := fold_right append EmptyString l.
 
-(* ---------- whitespace (ASCII part of str.isspace: \t \n \v \f \r \x1c-\x1f and space) ---------- *)
-Definition is_space (c : ascii) : bool :=
-  let n := N_of_ascii c in ((N.leb 9 n && N.leb n 13) || (N.leb 28 n && N.leb n 32))%bool.
-Fixpoint lstrip (s : string) : string :=
-  match s with String c r => if is_space c then lstrip r else s | EmptyString => EmptyString end.
-Definition rstrip (s : string) : string := srev (lstrip (srev s)).
-Definition strip (s : string) : string := rstrip (lstrip s).
-
 Fixpoint sfilter (f : ascii -> bool) (s : string) : string :=
   match s with EmptyString => EmptyString | String c r => if f c then String c (sfilter f r) else sfilter f r end.
 
@@ -62,6 +54,37 @@ Fixpoint cps (s : string) : list string :=
       end
   end.
 Definition cp_len (s : string) : nat := length (cps s).
+
+(* ---------- whitespace: the code points of str.isspace (= regex \s in str patterns), as UTF-8 bytes ----------
+   CPython 3.12: 29 code points.  C04/Props.v proves this table equal to the one regenerated from the
+   interpreter under test on every run (Gen/C04Whitespace.v). *)
+Definition bytes (l : list N) : string := fold_right (fun n s => String (ascii_of_N n) s) EmptyString l.
+Definition ws_bytes : list (list N) :=
+  [[9]; [10]; [11]; [12]; [13]; [28]; [29]; [30]; [31]; [32]; [194; 133]; [194; 160]; [225; 154; 128];
+   [226; 128; 128]; [226; 128; 129]; [226; 128; 130]; [226; 128; 131]; [226; 128; 132]; [226; 128; 133];
+   [226; 128; 134]; [226; 128; 135]; [226; 128; 136]; [226; 128; 137]; [226; 128; 138]; [226; 128; 168];
+   [226; 128; 169]; [226; 128; 175]; [226; 129; 159]; [227; 128; 128]]%N.
+Definition ws_codepoints : list string := map bytes ws_bytes.
+(* one code point (a chunk of [cps]) is a blank *)
+Definition is_space_cp (c : string) : bool := mem c ws_codepoints.
+
+Fixpoint dropwhile {A} (f : A -> bool) (l : list A) : list A :=
+  match l with [] => [] | x :: r => if f x then dropwhile f r else l end.
+(* str.strip(): leading and trailing blanks, by code point *)
+Definition lstrip_cps (l : list string) : list string := dropwhile is_space_cp l.
+Definition strip_cps (l : list string) : list string := rev (dropwhile is_space_cp (rev (dropwhile is_space_cp l))).
+Definition lstrip (s : string) : string := sconcat (lstrip_cps (cps s)).
+Definition strip (s : string) : string := sconcat (strip_cps (cps s)).
+
+(* str.split() / split(None): runs of blanks separate, no empty pieces *)
+Fixpoint split_ws_go (l : list string) (cur : list string) : list string :=
+  match l with
+  | [] => match cur with [] => [] | _ => [sconcat (rev cur)] end
+  | c :: r => if is_space_cp c
+              then match cur with [] => split_ws_go r [] | _ => sconcat (rev cur) :: split_ws_go r [] end
+              else split_ws_go r (c :: cur)
+  end.
+Definition split_ws (s : string) : list string := split_ws_go (cps s) [].
 
 (* ---------- Python slice [start:stop] (step 1) on lists ---------- *)
 Definition clamp_index (len i : Z) : Z :=
@@ -92,16 +115,6 @@ Fixpoint split_go (sep : string) (s : string) (skip : nat) (cur : string) : list
       end
   end.
 Definition split_on (sep s : string) : list string := split_go sep s O EmptyString.
-
-(* str.split() / split(None): runs of whitespace separate, no empty pieces *)
-Fixpoint split_ws_go (s : string) (cur : string) : list string :=
-  match s with
-  | EmptyString => match cur with EmptyString => [] | _ => [srev cur] end
-  | String c r => if is_space c
-                  then match cur with EmptyString => split_ws_go r EmptyString | _ => srev cur :: split_ws_go r EmptyString end
-                  else split_ws_go r (String c cur)
-  end.
-Definition split_ws (s : string) : list string := split_ws_go s EmptyString.
 
 (* str.replace(old, new), old non-empty *)
 Fixpoint replace_go (old new : string) (s : string) (skip : nat) : string :=
